@@ -1,47 +1,98 @@
-import NfcVerif.Lemmas.AdvT34
-import NfcVerif.Lemmas.AdvT3
-import NfcVerif.Lemmas.AdvT2
-import NfcVerif.Lemmas.AdvAct
+import NfcVerif.Lemmas.AdvOps
 /-!
 # C08 - Activating and reading arbitrary tags terminates safely
 
-Models: `Model/AdvT12.lean` (Type 1 / Type 2), `Model/AdvT34.lean` (Type 3 / Type 4 / activation),
-all of the tree WITH `fixes/C08`.  The tag is an arbitrary answer sequence (`Adv.Tag`), for Type 4 at
-APDU level an arbitrary transport `Adv.Xp σ`.
+Models: `Model/AdvT12.lean` (Type 1 / Type 2 readers), `Model/AdvT34.lean` (Type 3 / Type 4 readers, activation),
+`Model/IsoDepC08.lean` (the ISO-DEP initiator with the termination repairs of `fixes/C08`),
+`Model/AdvOps.lean` (presence checks, `Tag.ndef` / `has_changed` / `is_present` on one tag object, sessions) -
+all of the tree WITH `fixes/C08`.  The tag is an arbitrary answer sequence (`Adv.Tag`: the answer to the n-th
+interaction, whatever the command was); for Type 4 that is the answer to the n-th FRAME.
 
-Proved here (every theorem quantifies over EVERY tag, i.e. every answer sequence; `TagBytes` only says
-that answers consist of octets):
-* `t1_read_safe`: the Type 1 reader needs at most 1300 interactions (amortised over the cache length:
-  a tag may answer RALL with fewer than 120 octets again and again), never raises, and returns `None`
-  or an object whose octets were read from inside the data area `[12, end)`.
-* `t2_read_safe`: the Type 2 reader needs at most 86066 interactions (8 per 16-byte chunk below address
-  172100 = 2055 + 4 + 65535 + 104448 reserved bytes at most), never raises (no sector number above 255),
-  and returns `None` or an object whose octets were read from inside the data area `[16, end)`.
-* `t3_read_safe`: the Type 3 reader needs at most 6 + 3*65536 interactions, never raises, returns `None`
-  or an object with `length ≤ capacity` and octets from blocks inside the data area.
-* `t4_read_safe` (full at APDU level): at most 7 + 65536 APDUs, never raises, `None` or an object with
-  `length ≤ capacity` whose octets come from inside the file.
-* `activate_safe`: for activation data of the lengths the drivers deliver, `nfc.tag.activate` never
-  raises and needs at most 5 interactions.
-* `isodep_wtx_endless_counterexample`: at FRAME level the unchanged ISO-DEP initiator can be kept busy
-  for ever by the card (open findings), which is why the Type 4 theorem is stated at APDU level.
+Proved here (every theorem quantifies over EVERY tag; `TagBytes` only says that answers consist of octets):
+* `session_safe` - the property as a whole: `nfc.tag.activate` on well-framed activation data followed by any
+  sequence of `tag.ndef`, `ndef.has_changed`, `tag.is_present`: never an exception, a bounded number of
+  interactions, every returned object has its octets from inside the data area.
+* `t1_read_safe`, `t2_read_safe`, `t3_read_safe`: the readers, with their own bounds (1300 / 86066 / 6 + 3*65536).
+* `t4_read_safe` (APDU level, any transport) and `t4_read_safe_frames` (FRAME level, over the repaired ISO-DEP
+  initiator): at most 7 + 65536 APDUs, i.e. `t4Frames` frames; `None` or an object with `length <= capacity`.
+* `isodep_exchange_safe`: one `IsoDepInitiator.exchange` against every card: response or
+  `Type4TagCommandError`, at most `exchFrames` frames; `isodep_asfound_is_shared_model`: with the repairs
+  switched off the model is the one of `Model/IsoDep.lean` (C12); `isodep_wtx_endless_counterexample`,
+  `isodep_ack_endless_counterexample`: what the unrepaired loops do.
+* `is_present_safe_t1/t2/t3/t3rr/t4`, `ops_safe`: presence checks and operation sequences per tag type.
+* `activate_safe`: activation never raises, at most 5 interactions, and sets the tag object up as the other
+  theorems need it (`TagObjOk`).
 Not proved: `length ≤ capacity` for Type 1/2 - FALSE on the current code (open finding
 `t12-capacity-below-stored-length`: `get_capacity` under-reports at 257 free bytes).
 -/
 namespace NfcVerif.C08
 open NfcVerif NfcVerif.Adv NfcVerif.IsoDep
 
+/-- THE PROPERTY: activation + any sequence of `tag.ndef` / `has_changed` / `is_present`, every tag, every
+well-framed activation variant: terminates within the bound, never raises, objects are safe -/
+theorem session_safe (t : Tag) (hT : TagBytes t) (g : Target) (hg : WellFramedS g) (maxSend maxRecv : Nat)
+    (hms : 16 ≤ maxSend) (F : Nat) (hF : 966657 ≤ F) (sticky : Bool) (ops : List Op) :
+    (∃ r, (session t g maxSend maxRecv IsoDepR.Fix.all F sticky ops).1 = .ok r ∧ SessOk ops r) ∧
+    (session t g maxSend maxRecv IsoDepR.Fix.all F sticky ops).2.n ≤ 5 + ops.length * opBound :=
+  Adv.session_safe hT g hg maxSend maxRecv hms F hF sticky ops
+
+/-- non-vacuity: a FeliCa Lite SENSF_RES without system code is well-framed (the variant in which `tag.ndef`
+polls for 12FCh first) -/
+example : WellFramedS ⟨2, [], [], [], [], [], [0x01, 1, 2, 3, 4, 5, 6, 7, 8, 0, 0xF0, 255, 255, 255, 255, 255, 255]⟩ := by
+  refine ⟨⟨fun h => absurd h (by decide), fun h => absurd h (by decide), fun _ _ => Or.inl rfl⟩, ?_, fun h => absurd h (by decide)⟩
+  intro b hb
+  simp only [List.mem_cons, List.mem_nil_iff, or_false] at hb
+  rcases hb with h|h|h|h|h|h|h|h|h|h|h|h|h|h|h|h|h <;> omega
+
+/-- non-vacuity of the result: on the tag that never answers the session `[ndef, is_present]` of a Type 2 Tag
+gives `None` and `False` -/
+example : (session (fun _ => none) ⟨0, [0x44, 0x00], [0x00], [1, 2, 3, 4], [], [], []⟩ 256 256 IsoDepR.Fix.all 1000000 true
+    [.ndef, .present]).1.toOption.map (·.map (·.2.length)) = some (some 2) := by decide
+
 /-- Type 4, APDU level, every card: bounded, never an exception, `None` or a safe object -/
 theorem t4_read_safe {σ} (X : Xp σ) (hX : XOk X) (known : Option Info)
-    (hk : ∀ i, known = some i → i.maxLe ≤ 256) (s : σ) (n : Nat) :
+    (hk : ∀ i, known = some i → InfoOk i) (s : σ) (n : Nat) :
     (readNdef4 (countX X) known (s, n)).1.2 ≤ n + 7 + 65536 ∧
     ((readNdef4 (countX X) known (s, n)).2 = .ok none ∨
-     ∃ d i, (readNdef4 (countX X) known (s, n)).2 = .ok (some (d, i)) ∧ SafeNdef d ∧ i.maxLe ≤ 256) :=
+     ∃ d i, (readNdef4 (countX X) known (s, n)).2 = .ok (some (d, i)) ∧ SafeNdef d ∧ InfoOk i) :=
   readNdef4_safe hX known hk (s, n)
 
 /-- non-vacuity: a card that never answers (every APDU fails with TIMEOUT_ERROR) satisfies `XOk` -/
 example : XOk (⟨fun (s : Unit) _ => (s, .error (.tagCmd 0))⟩ : Xp Unit) := by
-  intro s c e h; cases h; rfl
+  intro s c e _ h; cases h; rfl
+
+/-- Type 4, FRAME level: every card, whatever it answers to every single frame (S(WTX), R(ACK), chaining, junk,
+nothing), over the ISO-DEP initiator with the repairs: `_read_ndef_data` ends after at most `t4Frames` frames,
+never raises, returns `None` or an object with `length ≤ capacity` and octets from inside the file -/
+theorem t4_read_safe_frames (t : Tag) (c : IsoDepR.Cfg) (p0 : Pcd) (sticky : Bool)
+    (hR : c.Repaired p0.nNak p0.nAck) (hm : 0 < p0.miu) (known : Option Info)
+    (hk : ∀ i, known = some i → InfoOk i) (s : S4) :
+    wframes s ≤ wframes (readNdef4 (isoX t c p0 sticky) known s).1 ∧
+    wframes (readNdef4 (isoX t c p0 sticky) known s).1 ≤ wframes s + t4Frames c p0 ∧
+    ((readNdef4 (isoX t c p0 sticky) known s).2 = .ok none ∨
+     ∃ d i, (readNdef4 (isoX t c p0 sticky) known s).2 = .ok (some (d, i)) ∧ SafeNdef d ∧ InfoOk i) :=
+  readNdef4_frames t c p0 sticky hR hm known hk s
+
+/-- non-vacuity: the configuration the driver runs the repaired tree with (FWI 4: limit 60416, 5 retries) -/
+example : IsoDepR.Cfg.Repaired { fx := IsoDepR.Fix.all, lim := 60416, F := 1000000 } 5 5 :=
+  ⟨rfl, rfl, rfl, by decide, by decide, by decide, by decide⟩
+
+/-- one `IsoDepInitiator.exchange` (repaired) against every card: a response or a `Type4TagCommandError`, no
+loop fuel used up, at most `exchFrames` frames -/
+theorem isodep_exchange_safe {σ} (P : Peer σ) (c : IsoDepR.Cfg) (pcd : Pcd) (hR : c.Repaired pcd.nNak pcd.nAck)
+    (hm : 0 < pcd.miu) (cmd : Bytes) (hc : cmd ≠ []) (w : World σ) :
+    IsoDepR.CmdRes (IsoDepR.exchange P c pcd cmd w).2.2 ∧
+    IsoDepR.frames w ≤ IsoDepR.frames (IsoDepR.exchange P c pcd cmd w).1 ∧
+    IsoDepR.frames (IsoDepR.exchange P c pcd cmd w).1 ≤ IsoDepR.frames w + IsoDepR.exchFrames c pcd cmd.length :=
+  let h := IsoDepR.exchange_spec P c pcd hR hm cmd hc w
+  ⟨h.1, h.2.1, h.2.2.1⟩
+
+/-- with the three repairs switched off the initiator of `Model/IsoDepC08.lean` IS the one of the shared
+`Model/IsoDep.lean` (which C12 proves delivery about) -/
+theorem isodep_asfound_is_shared_model {σ} (P : Peer σ) (c : IsoDepR.Cfg) (hw : c.fx.wtx = false)
+    (ha : c.fx.ack = false) (hc : c.fx.chain = false) (pcd : Pcd) (cmd : Bytes) (w : World σ) :
+    IsoDepR.exchange P c pcd cmd w = IsoDep.exchange P c.F pcd cmd w :=
+  IsoDepR.exchange_asFound P c hw ha hc pcd cmd w
 
 /-- Type 1: every tag; bounded, never an exception, octets from inside the data area -/
 theorem t1_read_safe (t : Tag) (hT : TagBytes t) (uid : Bytes) (w : W) :
@@ -59,19 +110,60 @@ theorem t2_read_safe (t : Tag) (hT : TagBytes t) (w : W) (sector : Nat) (alive :
      ∃ d, (readNdef2 t w sector alive).1 = .ok (some d) ∧ SafeA d ∧ d.lo = 16) :=
   readNdef2_safe hT w sector alive
 
-/-- Type 3: every tag; bounded, never an exception, `None` or a safe object -/
+/-- Type 3: every tag; bounded, never an exception (also not from the polling answer: any length, any
+request data), `None` or a safe object; the tag object stays consistent for the next operation -/
 theorem t3_read_safe (t : Tag) (hT : TagBytes t) (s : S3) (hI : I3 s) :
     (readNdef3 t s).2.w.n ≤ s.w.n + 6 + 3 * 65536 ∧
-    ((readNdef3 t s).1 = .ok none ∨ ∃ d, (readNdef3 t s).1 = .ok (some d) ∧ SafeNdef d ∧ d.lo = 16) :=
+    ((readNdef3 t s).1 = .ok none ∨ ∃ d, (readNdef3 t s).1 = .ok (some d) ∧ SafeNdef d ∧ d.lo = 16) ∧
+    I3 (readNdef3 t s).2 ∧ ((readNdef3 t s).2.sys = s.sys ∨ (readNdef3 t s).2.sys = 0x12FC) :=
   readNdef3_safe hT s hI
 
 example : I3 { w := W.init, idm := [1, 2, 3, 4, 5, 6, 7, 8], pmm := [0, 0xF0, 255, 255, 255, 255, 255, 255], sys := 0x12FC } :=
   ⟨rfl, rfl⟩
 
-/-- activation: well-framed activation data never make `nfc.tag.activate` raise -/
-theorem activate_safe (t : Tag) (maxSend maxRecv : Nat) (g : Target) (w : W) (hg : WellFramed g) :
-    (∃ o, (activate t maxSend maxRecv g w).1 = .ok o) ∧ (activate t maxSend maxRecv g w).2.n ≤ w.n + 5 :=
-  activate_ok t maxSend maxRecv g w hg
+/-- `Type3Tag.polling`: the tuple has the shape that belongs to the request code - what its callers unpack -/
+theorem t3_polling_shape (t : Tag) (hT : TagBytes t) (sys rc : Nat) (s : S3) (hs : sys < 65536)
+    (hrc : rc = 0 ∨ rc = 1 ∨ rc = 2) (tup : List Bytes) (h : (pollingTuple t sys rc s).1 = .ok tup) :
+    (rc = 0 → ∃ a b, tup = [a, b] ∧ a.length = 8 ∧ b.length = 8) ∧ (rc ≠ 0 → ∃ a b c, tup = [a, b, c]) :=
+  (pollingTuple_spec hT sys rc s hs hrc).2.2.2.2.2 tup h
+
+/-- presence checks: a boolean, never an exception, bounded -/
+theorem is_present_safe_t1 (t : Tag) (uid : Bytes) (hu : uid ≠ []) (w : W) :
+    (∃ b, (isPresent1 t uid w).1 = .ok b) ∧ (isPresent1 t uid w).2.n ≤ w.n + 3 :=
+  isPresent1_spec t uid hu w
+
+theorem is_present_safe_t2 (t : Tag) (s : S2) :
+    (∃ b, (isPresent2 t s).1 = .ok b) ∧ (isPresent2 t s).2.w.n ≤ s.w.n + 3 :=
+  isPresent2_spec t s
+
+theorem is_present_safe_t3 (t : Tag) (hT : TagBytes t) (nfcid : Bytes) (s : S3) (hI : I3s s) :
+    (∃ b, (isPresent3 t nfcid s).1 = .ok b) ∧ (isPresent3 t nfcid s).2.w.n ≤ s.w.n + 3 ∧ I3s (isPresent3 t nfcid s).2 :=
+  isPresent3_spec hT nfcid s hI
+
+theorem is_present_safe_t3rr (t : Tag) (hT : TagBytes t) (nfcid : Bytes) (s : S3) (hI : I3s s) :
+    (∃ b, (isPresent3rr t nfcid s).1 = .ok b) ∧ (isPresent3rr t nfcid s).2.w.n ≤ s.w.n + 6 ∧
+    I3s (isPresent3rr t nfcid s).2 :=
+  isPresent3rr_spec hT nfcid s hI
+
+theorem is_present_safe_t4 (t : Tag) (s : S4) :
+    (∃ b, (isPresent4 t s).1 = .ok b) ∧ wframes (isPresent4 t s).2 = wframes s + 1 :=
+  isPresent4_spec t s
+
+/-- any sequence of `tag.ndef` / `has_changed` / `is_present` on a tag object whose operations are safe -/
+theorem ops_safe {σ κ : Type} {T : TagOps σ κ} {I : σ → Prop} {K : κ → Prop} {G : Ndef → Prop} {n : σ → Nat} {B : Nat}
+    (h : OpsOk T I K G n B) (ops : List Op) (o : Obj σ κ) (ho : ObjOk I K G o) :
+    ∃ rs, (runOps T ops o []).1 = .ok rs ∧ (∀ r ∈ rs, ResOk G r) ∧ rs.length = ops.length ∧
+      n (runOps T ops o []).2.st ≤ n o.st + ops.length * B := by
+  obtain ⟨rs, h1, h2, h3, -, h5⟩ := runOps_safe h ops o [] ho (by intro r hr; cases hr)
+  exact ⟨rs, h1, h2, by simpa using h3, h5⟩
+
+/-- activation: well-framed activation data never make `nfc.tag.activate` raise; at most 5 interactions; the
+tag object is set up as its operations need it (UID present, IDm/PMm of 8 octets, MIU > 0, limits) -/
+theorem activate_safe (t : Tag) (maxSend maxRecv : Nat) (hms : 16 ≤ maxSend) (g : Target) (w : W) (hw : WOk w)
+    (hg : WellFramedS g) :
+    ∃ o, (activate t maxSend maxRecv g w).1 = .ok o ∧ (∀ x, o = some x → TagObjOk x) ∧
+      (activate t maxSend maxRecv g w).2.n ≤ w.n + 5 ∧ WOk (activate t maxSend maxRecv g w).2 :=
+  activate_spec t maxSend maxRecv hms g w hw hg
 
 example : WellFramed ⟨0, [0x44, 0x00], [0x00], [4, 1, 2, 3, 4, 5, 6], [], [], []⟩ := by
   refine ⟨fun _ => ⟨rfl, rfl, by decide⟩, ⟨fun h => (by cases h), fun h => absurd rfl h⟩⟩
@@ -79,7 +171,7 @@ example : WellFramed ⟨0, [0x44, 0x00], [0x00], [4, 1, 2, 3, 4, 5, 6], [], [], 
 /-- the card that answers every frame with S(WTX) -/
 def wtxTag : Tag := fun _ => some [0xF2, 0x01]
 
-/-- FRAME level, unchanged code: `IsoDepInitiator._exchange` echoes S(WTX) as long as the card sends
+/-- FRAME level, UNREPAIRED code: `IsoDepInitiator._exchange` echoes S(WTX) as long as the card sends
 it - whatever fuel `F` the loop is given, it is used up (the Python loop never ends) -/
 theorem isodep_wtx_endless_counterexample (F : Nat) (w : World Nat) (hw : w.script = []) (out : Bytes) :
     (xchgW (oraclePeer wtxTag) F w out).2 = .fuel ∧ (xchgW (oraclePeer wtxTag) F w out).1.card = w.card + F := by
@@ -92,6 +184,26 @@ theorem isodep_wtx_endless_counterexample (F : Nat) (w : World Nat) (hw : w.scri
     unfold xchgW
     simp only [hx, isWtx]
     have := ih { card := w.card + 1, script := [], trace := w.trace ++ [out] } rfl [0xF2, 0x01]
+    simp at this ⊢
+    exact ⟨this.1, by omega⟩
+
+/-- the card that answers every frame with R(ACK) carrying block number 1 -/
+def ackTag : Tag := fun _ => some [0xA3]
+
+/-- FRAME level, UNREPAIRED code: the command phase retransmits the I-block as long as the card sends the R(ACK)
+with the other block number - every fuel `f` is used up -/
+theorem isodep_ack_endless_counterexample (F n f i : Nat) (req rty out : Bytes) (w : World Nat) (hw : w.script = []) :
+    (blockLoop (oraclePeer ackTag) (F + 1) n (some 0xA3) req rty f i out w).2 = .error .outOfFuel ∧
+    (blockLoop (oraclePeer ackTag) (F + 1) n (some 0xA3) req rty f i out w).1.card = w.card + f := by
+  induction f generalizing w out i with
+  | zero => simp [blockLoop]
+  | succ f ih =>
+    have hx : w.xchg (oraclePeer ackTag) out =
+        ({ card := w.card + 1, script := [], trace := w.trace ++ [out] }, .data [0xA3]) := by
+      simp [World.xchg, nextFault, hw, oraclePeer, ackTag, legBack]
+    unfold blockLoop
+    simp only [xchgW, hx, isWtx]
+    have := ih (i + 1) req { card := w.card + 1, script := [], trace := w.trace ++ [out] } rfl
     simp at this ⊢
     exact ⟨this.1, by omega⟩
 
